@@ -13,7 +13,7 @@ const dsP = "emitter/doublesign."
 
 func init() {
 	register("C21", "other", "T8 DecisionTable (field coverage; scenario evaluation of the parallel-instance truth table), T19 SaturatingArith (no-wrap edge facts), T4 GuardedBy (normalised comparisons, disjunctive edges), inlined view of helpers (parameter binding)",
-		"Decides the decision-table shape of the double-sign guard: no peers and unfinished P2P sync lead only to error returns; each of the five timestamps (last connected, P2P synced, became validator, external self-event created / detected) has a test since(t) < threshold that feeds the remaining time threshold - since(t) of the same timestamp, with a non-nil error, into the maximum keeper, and no emission is permitted on a path that neither recorded that wait nor saw the test fail. A row is the set of apply calls guarded by the test of one timestamp (the row is found by its guard, so the wait may be held in a re-assigned variable, be the cap constant, or be recorded by several applies, one per case). The test, the wait computation and the keeper update may live in SyncedToEmit itself or in helper functions / local closures it calls: the rule works on the inlined view (parameters and receivers of a helper are bound to the caller's argument expressions, single-definition locals are looked through), so the same facts are decided whether the five tests are written out or share one helper. The keeper replaces its value only by a larger wait and the function returns the keeper's wait and error. The remaining-time subtraction is saturating: since(t) is the saturating Time.Sub and is very negative for a far-future timestamp, so the plain difference wraps negative and emission would be permitted; wherever a value reaching apply is the plain difference threshold - since, every path from the subtraction to that use takes an edge that excludes wrap-around (since >= c with c >= 0, difference >= threshold, or difference >= c with c >= 0, whichever alternative of a disjunctive edge holds), any other value reaching it is the constant MaxInt64 or zero; a test of the saturated value alone (since == MinInt64) does not qualify, because differences just below saturation wrap too. Parallel-instance detection is decided by scenario evaluation: DetectParallelInstance (with predicate helpers / closures inlined, locals looked through) is evaluated in three-valued logic under each truth assignment to the two tests Created.Before(Startup) and since(Created) < threshold; a condition the scenario does not decide is followed both ways, and every return reachable in a scenario yields exactly !before && recent (so an additional early exit, or a differently spelled age test, is reported with the offending return and the condition it was reached over). The age helper SyncStatus.Since itself is decided on its inlined view: every return yields <receiver>.Now.Sub(<parameter>), the saturating time.Time.Sub (an age computed from UnixNano/Unix readings in 64-bit integer arithmetic wraps for timestamps more than 2^63 ns from Now and makes a far-future timestamp look old); an age helper under another name is recognised by the same inlined form. Concrete time arithmetic beyond wrap-around is not decided.",
+		"Decides the decision-table shape of the double-sign guard: no peers and unfinished P2P sync lead only to error returns; each of the five timestamps (last connected, P2P synced, became validator, external self-event created / detected) has a test since(t) < threshold that feeds the remaining time threshold - since(t) of the same timestamp, with a non-nil error, into the maximum keeper, and no emission is permitted on a path that neither recorded that wait nor saw the test fail. A row is the set of apply calls guarded by the test of one timestamp (the row is found by its guard, so the wait may be held in a re-assigned variable, be the cap constant, or be recorded by several applies, one per case). The test, the wait computation and the keeper update may live in SyncedToEmit itself or in helper functions / local closures it calls: the rule works on the inlined view (parameters and receivers of a helper are bound to the caller's argument expressions, single-definition locals are looked through), so the same facts are decided whether the five tests are written out or share one helper. The maximum keeper is located by what SyncedToEmit returns (the two fields of one local that every permitting return hands back), its updates by the assignments to that wait field anywhere in the inlined view (in SyncedToEmit, in an update method of the keeper, or in a helper/closure that tests, computes and records; the status and the threshold may be grouped with the keeper in a small struct built by a literal: a selection of a literal-only field denotes the literal's element); no type, method or field name of the keeper is assumed. The keeper replaces its wait only over current < new, the error is stored next to it on the same edge, an update is skipped only over new <= current, and the function returns the keeper's wait and error. The remaining-time subtraction is saturating: since(t) is the saturating Time.Sub and is very negative for a far-future timestamp, so the plain difference wraps negative and emission would be permitted; wherever a value reaching apply is the plain difference threshold - since, every path from the subtraction to that use takes an edge that excludes wrap-around (since >= c with c >= 0, difference >= threshold, or difference >= c with c >= 0, whichever alternative of a disjunctive edge holds), any other value reaching it is the constant MaxInt64 or zero; a test of the saturated value alone (since == MinInt64) does not qualify, because differences just below saturation wrap too. Parallel-instance detection is decided by scenario evaluation: DetectParallelInstance (with predicate helpers / closures inlined, locals looked through) is evaluated in three-valued logic under each truth assignment to the two tests Created.Before(Startup) and since(Created) < threshold; a condition the scenario does not decide is followed both ways, and every return reachable in a scenario yields exactly !before && recent (so an additional early exit, or a differently spelled age test, is reported with the offending return and the condition it was reached over). The age helper SyncStatus.Since itself is decided on its inlined view: every return yields <receiver>.Now.Sub(<parameter>), the saturating time.Time.Sub (an age computed from UnixNano/Unix readings in 64-bit integer arithmetic wraps for timestamps more than 2^63 ns from Now and makes a far-future timestamp look old); an age helper under another name is recognised by the same inlined form. Concrete time arithmetic beyond wrap-around is not decided.",
 		[]string{"time.Time.Sub saturates at the minimum/maximum Duration (time package contract)", "threshold is positive"},
 		runC21)
 }
@@ -34,14 +34,28 @@ type c21Frame struct {
 	Bind map[*types.Var]ast.Expr
 }
 
-// c21Apply is one call of the keeper's apply in the inlined view.
-type c21Apply struct {
-	Fr *c21Frame
-	CS *core.CallSite
+// c21Keeper is the maximum keeper of SyncedToEmit, found by what the permitting return hands back: a
+// local of SyncedToEmit whose two fields (the longest wait and its error) are the function's result.
+// Neither the keeper's type nor the name of the method that updates it is assumed.
+type c21Keeper struct {
+	v         *types.Var // the local of SyncedToEmit
+	wait, err *types.Var // its fields
 }
 
-// chain lists the frames from the root down to the frame of the apply call, together with the point
-// that leads towards the apply in each of them (the helper call site, or the apply call itself).
+// c21Apply is one update of the keeper in the inlined view: the assignment to the keeper's wait field
+// (in SyncedToEmit, in an update method of the keeper, in a helper or closure that tests, computes and
+// records), with the value stored and the error stored next to it in the same activation.
+type c21Apply struct {
+	Fr    *c21Frame
+	Pt    core.Point
+	Pos   token.Pos
+	Wait  ast.Expr
+	Err   ast.Expr // nil: no error is stored in the activation that stores the wait
+	ErrPt core.Point
+}
+
+// chain lists the frames from the root down to the frame of the update, together with the point
+// that leads towards the update in each of them (the helper call site, or the update itself).
 func (a c21Apply) chain() (frames []*c21Frame, pts []core.Point) {
 	for fr := a.Fr; fr != nil; fr = fr.Up {
 		frames = append([]*c21Frame{fr}, frames...)
@@ -50,7 +64,7 @@ func (a c21Apply) chain() (frames []*c21Frame, pts []core.Point) {
 		if i+1 < len(frames) {
 			pts = append(pts, frames[i+1].Site.Pt)
 		} else {
-			pts = append(pts, a.CS.Pt)
+			pts = append(pts, a.Pt)
 		}
 	}
 	return
@@ -103,18 +117,40 @@ func c21Enter(fr *c21Frame, cs *core.CallSite, g *core.FuncInfo) *c21Frame {
 	return sub
 }
 
-// c21ApplySites enumerates the apply calls reachable from the frame through helper calls (bounded depth,
+// c21KeeperField: e selects field fld of the keeper variable (through receivers / parameters bound to it).
+func (k *c21Keeper) field(fr *c21Frame, e ast.Expr, fld *types.Var) bool {
+	sel, ok := ast.Unparen(e).(*ast.SelectorExpr)
+	if !ok || fld == nil {
+		return false
+	}
+	s, ok := fr.F.Info().Selections[sel]
+	if !ok || s.Obj() != types.Object(fld) {
+		return false
+	}
+	return c21RootVar(fr, sel.X) == k.v
+}
+
+// c21ApplySites enumerates the keeper updates reachable from the frame through helper calls (bounded depth,
 // no recursion, `go` statements excluded).
-func c21ApplySites(fr *c21Frame, depth int, out *[]c21Apply) {
+func c21ApplySites(fr *c21Frame, k *c21Keeper, depth int, out *[]c21Apply) {
+	as := assignments(fr.F)
+	for _, a := range as {
+		if !k.field(fr, a.LHS, k.wait) {
+			continue
+		}
+		ap := c21Apply{Fr: fr, Pt: a.Pt, Pos: a.Stmt.Pos(), Wait: a.RHS}
+		for _, b := range as {
+			if k.field(fr, b.LHS, k.err) && b.RHS != nil {
+				ap.Err, ap.ErrPt = b.RHS, b.Pt
+			}
+		}
+		*out = append(*out, ap)
+	}
+	if depth <= 0 {
+		return
+	}
 	for _, cs := range fr.F.Calls() {
 		if cs.InGo || cs.IsConv {
-			continue
-		}
-		if cs.Name == dsP+"maxWaitError.apply" {
-			*out = append(*out, c21Apply{fr, cs})
-			continue
-		}
-		if depth <= 0 {
 			continue
 		}
 		g := c21Callee(fr, cs)
@@ -130,14 +166,112 @@ func c21ApplySites(fr *c21Frame, depth int, out *[]c21Apply) {
 		if rec {
 			continue
 		}
-		c21ApplySites(c21Enter(fr, cs, g), depth-1, out)
+		c21ApplySites(c21Enter(fr, cs, g), k, depth-1, out)
 	}
+}
+
+// c21RootVar follows an expression through parentheses, & and *, and through parameters / receivers
+// bound to the caller's arguments, to the variable it names (locals are not looked through).
+func c21RootVar(fr *c21Frame, e ast.Expr) *types.Var {
+	_, r := c21ResolveX(fr, e, false)
+	id, ok := r.(*ast.Ident)
+	if !ok {
+		return nil
+	}
+	v, _ := fr.F.Info().ObjectOf(id).(*types.Var)
+	if v == nil {
+		// the identifier belongs to another frame's package info only when packages differ; all frames of
+		// this view are in one package
+		return nil
+	}
+	return v
 }
 
 // c21Resolve follows an expression to what it denotes in the inlined view: parentheses, & and * are
 // dropped (a helper may take the status by pointer), a parameter or receiver that is never reassigned
 // stands for the caller's argument, a single-definition local for its defining expression.
-func c21Resolve(fr *c21Frame, e ast.Expr) (*c21Frame, ast.Expr) {
+func c21Resolve(fr *c21Frame, e ast.Expr) (*c21Frame, ast.Expr) { return c21ResolveX(fr, e, true) }
+
+// c21FrozenField: the struct field is set only by composite literals: no assignment, ++/-- or address-of
+// of a selection of it anywhere in its package. A selection x.f of a value built by a literal then
+// denotes the literal's element for f.
+func c21FrozenField(p *core.Prog, fld *types.Var) bool {
+	if fld == nil || fld.Pkg() == nil {
+		return false
+	}
+	frozen := true
+	for _, g := range p.Funcs() {
+		if g.Lit != nil || g.Pkg.Types != fld.Pkg() {
+			continue
+		}
+		is := func(e ast.Expr) bool {
+			sel, ok := ast.Unparen(e).(*ast.SelectorExpr)
+			if !ok {
+				return false
+			}
+			s, ok := g.Info().Selections[sel]
+			return ok && s.Obj() == types.Object(fld)
+		}
+		g.InspectAll(func(n ast.Node) bool {
+			switch x := n.(type) {
+			case *ast.AssignStmt:
+				for _, l := range x.Lhs {
+					if is(l) {
+						frozen = false
+					}
+				}
+			case *ast.IncDecStmt:
+				if is(x.X) {
+					frozen = false
+				}
+			case *ast.UnaryExpr:
+				if x.Op == token.AND && is(x.X) {
+					frozen = false
+				}
+			}
+			return frozen
+		})
+	}
+	return frozen
+}
+
+// c21LitField: sel selects a literal-only field of a struct value that resolves to a composite literal:
+// returns the frame and expression of the literal's element for that field.
+func c21LitField(fr *c21Frame, sel *ast.SelectorExpr) (*c21Frame, ast.Expr) {
+	s, ok := fr.F.Info().Selections[sel]
+	if !ok || s.Kind() != types.FieldVal || len(s.Index()) != 1 {
+		return nil, nil
+	}
+	fld, _ := s.Obj().(*types.Var)
+	if fld == nil {
+		return nil, nil
+	}
+	bf, be := c21ResolveX(fr, sel.X, true)
+	cl, ok := be.(*ast.CompositeLit)
+	if !ok || !c21FrozenField(fr.F.P, fld) {
+		return nil, nil
+	}
+	tv, ok := bf.F.Info().Types[cl]
+	if !ok {
+		return nil, nil
+	}
+	st, _ := tv.Type.Underlying().(*types.Struct)
+	if st == nil {
+		return nil, nil
+	}
+	for i, el := range cl.Elts {
+		if kv, ok := el.(*ast.KeyValueExpr); ok {
+			if id, ok := kv.Key.(*ast.Ident); ok && bf.F.Info().ObjectOf(id) == types.Object(fld) {
+				return bf, kv.Value
+			}
+		} else if i < st.NumFields() && st.Field(i) == fld {
+			return bf, el
+		}
+	}
+	return nil, nil
+}
+
+func c21ResolveX(fr *c21Frame, e ast.Expr, locals bool) (*c21Frame, ast.Expr) {
 	for i := 0; i < 24 && e != nil; i++ {
 		e = ast.Unparen(e)
 		switch x := e.(type) {
@@ -150,6 +284,16 @@ func c21Resolve(fr *c21Frame, e ast.Expr) (*c21Frame, ast.Expr) {
 		case *ast.StarExpr:
 			e = x.X
 			continue
+		case *ast.SelectorExpr:
+			// a field of a small state struct built by a literal (the status and the threshold grouped
+			// with the keeper): the literal's element, when the field is never assigned otherwise
+			if locals {
+				if lf, le := c21LitField(fr, x); le != nil {
+					fr, e = lf, le
+					continue
+				}
+			}
+			return fr, e
 		}
 		id, ok := e.(*ast.Ident)
 		if !ok {
@@ -174,6 +318,9 @@ func c21Resolve(fr *c21Frame, e ast.Expr) (*c21Frame, ast.Expr) {
 			}
 			fr, e = up.Up, up.Bind[v]
 			continue
+		}
+		if !locals {
+			return fr, e
 		}
 		r := resolveLocal(fr.F, e)
 		if r == e {
@@ -425,67 +572,62 @@ func runC21(c *core.Ctx) {
 		// the per-timestamp tests, on the inlined view (the test/apply pair may sit in a helper)
 		view := &c21View{status: status, threshold: threshold}
 		root := &c21Frame{F: f}
+		keeper, nFinal := c21FindKeeper(f, errRet)
+		c.Check(keeper != nil && nFinal >= 1, "result is the longest wait and its error", "provenance", f.Pos(), "the non-early return yields the keeper's wait and error fields", "SyncedToEmit does not return the maximum keeper's wait/error")
+		if keeper == nil {
+			return
+		}
 		var applies []c21Apply
-		c21ApplySites(root, 3, &applies)
+		c21ApplySites(root, keeper, 4, &applies)
 		c.ExpectAtLeast("apply sites in SyncedToEmit", len(applies), 1)
 		accepting := func(pt core.Point) bool {
 			r, ok := pt.Node().(*ast.ReturnStmt)
 			return ok && !errRet(r)
 		}
 		// the rows of the table, one per timestamp (c21_table.go)
-		keeper, keeperOK := c21StampRows(c, f, view, applies, accepting)
-
-		// result: the keeper's fields
-		okRet := keeper != nil && keeperOK
-		nFinal := 0
-		for _, rp := range f.ReturnPoints() {
-			r := rp.Node().(*ast.ReturnStmt)
-			if errRet(r) {
-				continue
-			}
-			nFinal++
-			if len(r.Results) != 2 {
-				okRet = false
-				continue
-			}
-			r0, p0 := fieldPath(f, r.Results[0])
-			r1, p1 := fieldPath(f, r.Results[1])
-			if !(len(p0) == 1 && p0[0] == dsP+"maxWaitError.wait" && varOf(f, r0) == keeper && len(p1) == 1 && p1[0] == dsP+"maxWaitError.waitErr" && varOf(f, r1) == keeper) {
-				okRet = false
-			}
-		}
-		c.Check(okRet && nFinal >= 1, "result is the longest wait and its error", "provenance", f.Pos(), "the non-early return yields the keeper's wait and waitErr", "SyncedToEmit does not return the maximum keeper's wait/error")
+		c21StampRows(c, f, view, keeper, applies, accepting)
 	})
 
 	c.Clause("C21.max", func() {
-		f := c.Fn(dsP + "maxWaitError.apply")
-		wait, werr := f.Param(0), f.Param(1)
-		namer := func(e ast.Expr) string {
-			if fieldNameOf(f, e) == dsP+"maxWaitError.wait" {
-				return "cur"
+		f := c.Fn(dsP + "SyncedToEmit")
+		keeper, _ := c21FindKeeper(f, func(r *ast.ReturnStmt) bool {
+			if len(r.Results) != 2 || core.IsNil(f.Info(), r.Results[1]) {
+				return false
 			}
-			if varOf(f, e) == wait {
-				return "new"
-			}
-			return ""
+			v, ok := f.ObjOf(r.Results[1]).(*types.Var)
+			return ok && v.Pkg() != nil && v.Parent() == v.Pkg().Scope()
+		})
+		c.Need(keeper != nil, "SyncedToEmit returns the two fields of a local maximum keeper")
+		var applies []c21Apply
+		c21ApplySites(&c21Frame{F: f}, keeper, 4, &applies)
+		type site struct {
+			f  *core.FuncInfo
+			pt core.Point
 		}
-		want := core.ParseLinCmp("cur - new + 1 <= 0")
+		seen := map[site]bool{}
 		n := 0
-		for _, a := range assignments(f) {
-			fn := fieldNameOf(f, a.LHS)
-			if fn != dsP+"maxWaitError.wait" && fn != dsP+"maxWaitError.waitErr" {
+		for _, ap := range applies {
+			if seen[site{ap.Fr.F, ap.Pt}] {
 				continue
 			}
+			seen[site{ap.Fr.F, ap.Pt}] = true
+			g := ap.Fr.F
+			longer := keeper.longer(ap)
 			n++
-			ok, _ := f.GuardedBy(a.Pt, func(ft core.Fact) bool {
-				lc, k := core.NormLinCmp(f.Info(), ft, namer)
-				return k && lc.Equal(want)
-			})
-			src := wait
-			if fn == dsP+"maxWaitError.waitErr" {
-				src = werr
+			ok, _ := g.GuardedBy(ap.Pt, longer)
+			c.Check(ok, keeper.wait.Name()+" replaced only by a longer wait", "T4 GuardedBy", ap.Pos, "assigned on the cur < new edge, new being the value stored", "the keeper does not keep the maximum wait and its error")
+			okE := ap.Err != nil
+			if okE {
+				n++
+				okE, _ = g.GuardedBy(ap.ErrPt, longer)
+				// stored together: whenever the wait is replaced so is the error, and the other way round
+				if okE {
+					p1, _ := pairedWith(g, ap.Pt, []core.Point{ap.ErrPt})
+					p2, _ := pairedWith(g, ap.ErrPt, []core.Point{ap.Pt})
+					okE = p1 && p2
+				}
 			}
-			c.Check(ok && varOf(f, a.RHS) == src, short(fn)+" replaced only by a longer wait", "T4 GuardedBy", a.Stmt.Pos(), "assigned from the argument on the cur < new edge", "the keeper does not keep the maximum wait and its error")
+			c.Check(okE, keeper.err.Name()+" replaced only by a longer wait", "T4 GuardedBy", ap.Pos, "the error is stored next to the wait, on the same cur < new edge", "the keeper does not keep the maximum wait and its error")
 		}
 		c.ExpectAtLeast("keeper field updates", n, 2)
 	})
@@ -495,6 +637,78 @@ func runC21(c *core.Ctx) {
 
 	// the age helper is the saturating time subtraction (c21_since.go)
 	c.Clause("C21.since", func() { c21SinceClause(c) })
+}
+
+// c21FindKeeper locates the maximum keeper from the permitting (non-error) returns of SyncedToEmit: each
+// of them yields K.a, K.b for one local K of the function and the same two distinct fields a, b.
+func c21FindKeeper(f *core.FuncInfo, errRet func(*ast.ReturnStmt) bool) (*c21Keeper, int) {
+	var k *c21Keeper
+	nFinal := 0
+	for _, rp := range f.ReturnPoints() {
+		r := rp.Node().(*ast.ReturnStmt)
+		if errRet(r) {
+			continue
+		}
+		nFinal++
+		if len(r.Results) != 2 {
+			return nil, nFinal
+		}
+		var flds [2]*types.Var
+		var roots [2]*types.Var
+		for i, res := range r.Results {
+			sel, ok := ast.Unparen(res).(*ast.SelectorExpr)
+			if !ok {
+				return nil, nFinal
+			}
+			s, ok := f.Info().Selections[sel]
+			if !ok || s.Kind() != types.FieldVal {
+				return nil, nFinal
+			}
+			flds[i], _ = s.Obj().(*types.Var)
+			roots[i] = varOf(f, sel.X)
+		}
+		if flds[0] == nil || flds[1] == nil || flds[0] == flds[1] || roots[0] == nil || roots[0] != roots[1] || !c19Within(f.Body, roots[0].Pos()) {
+			return nil, nFinal
+		}
+		if k != nil && (k.v != roots[0] || k.wait != flds[0] || k.err != flds[1]) {
+			return nil, nFinal
+		}
+		k = &c21Keeper{v: roots[0], wait: flds[0], err: flds[1]}
+	}
+	return k, nFinal
+}
+
+// longer: the fact "the keeper's current wait < the value this update stores" in the update's function.
+func (k *c21Keeper) longer(ap c21Apply) func(core.Fact) bool {
+	return c19LinMatch(ap.Fr.F, k.namer(ap), "cur - new + 1 <= 0")
+}
+
+// notLonger: the fact "the value this update would store <= the keeper's current wait".
+func (k *c21Keeper) notLonger(ap c21Apply) func(core.Fact) bool {
+	return c19LinMatch(ap.Fr.F, k.namer(ap), "new - cur <= 0")
+}
+
+func (k *c21Keeper) namer(ap c21Apply) core.AtomNamer {
+	g := ap.Fr.F
+	nv := varOf(g, ap.Wait)
+	return func(e ast.Expr) string {
+		if k.field(ap.Fr, e, k.wait) {
+			return "cur"
+		}
+		if ap.Wait == nil {
+			return ""
+		}
+		if v := varOf(g, e); v != nil {
+			if v == nv {
+				return "new"
+			}
+			return ""
+		}
+		if nv == nil && exprStr(ast.Unparen(e)) == exprStr(ast.Unparen(ap.Wait)) {
+			return "new"
+		}
+		return ""
+	}
 }
 
 func joinStr(xs []string) string {
